@@ -16,8 +16,8 @@ import (
 // request with ErrInvalidatedDeviceCode" contract, with a lock-step model.
 
 type c16Op struct {
-	Op   string `json:"op"`   // auth | accept | accept-replace | reject | poll | advance
-	Flow int    `json:"flow"` // index of the device flow
+	Op   string `json:"op"`             // auth | accept | accept-replace | reject | poll | advance
+	Flow int    `json:"flow"`           // index of the device flow
 	By   string `json:"by,omitempty"`   // poll: right | wrong | wrong+cid
 	Code string `json:"code,omitempty"` // poll: genuine | forged-key | forged-usersig
 }
